@@ -7877,6 +7877,14 @@ func keyRoot(v ssa.Value) ssa.Value {
 			v = x.X
 		case *ssa.Slice:
 			v = x.X
+		case *ssa.Call:
+			// the bytes package's trimming helpers return a sub-slice of their argument
+			switch calleeName(&x.Call) {
+			case "bytes.TrimSuffix", "bytes.TrimPrefix", "bytes.TrimSpace", "bytes.TrimRight", "bytes.TrimLeft", "bytes.Trim", "bytes.TrimFunc", "bytes.TrimRightFunc", "bytes.TrimLeftFunc":
+				v = x.Call.Args[0]
+			default:
+				return v
+			}
 		case *ssa.UnOp:
 			if x.Op != token.MUL {
 				return v
@@ -9388,4 +9396,198 @@ func isParamValue(v ssa.Value, par *ssa.Parameter) bool {
 		}
 	}
 	return n == 1
+}
+
+// ruleEncodedBytesReadOnly (C14.store <fn>:encoded-bytes-readonly; C18.process for cloudevents): the
+// bytes of the buffer the encoder wrote are what FormattedAs stores. Between the two nothing writes
+// through them: no element store, copy into, or append onto a re-slice of buf.Bytes() — also not in a
+// helper of the module the bytes are handed to (a preview / metrics helper that "cuts" the line with
+// append(line[:k], "..."...) overwrites the stored document).
+func (c *Ctx) ruleEncodedBytesReadOnly(rule string, pkgs ...string) {
+	p, r := c.P, c.R
+	n, bad := 0, 0
+	for _, f := range p.FuncsIn(pkgs...) {
+		if f.Parent() != nil || len(callsTo(f, func(nm string, cc *ssa.CallCommon) bool { return nm == "(*eventlogger.Event).FormattedAs" })) == 0 {
+			continue
+		}
+		for _, ci := range callsTo(f, func(nm string, cc *ssa.CallCommon) bool { return nm == "(*bytes.Buffer).Bytes" }) {
+			val, ok := ci.(*ssa.Call)
+			if !ok {
+				continue
+			}
+			n++
+			c.writesInPlace(f, true, func(in ssa.Instruction, target ssa.Value, _ bool) {
+				if keyRoot(target) != ssa.Value(val) {
+					return
+				}
+				bad++
+				r.Check(false, rule, p.ShortFn(f)+":encoded-bytes-readonly", p.InstrPos(in), "", "the bytes of the buffer the encoder wrote are written in place (an element store, a copy into them, an append onto a re-slice — here or in a helper they are handed to) before or while they are stored with FormattedAs: the stored document is no longer what the encoder produced")
+			})
+		}
+	}
+	if bad == 0 {
+		r.Check(n >= 2, rule, "encoded-bytes-readonly", "", fmt.Sprintf("%d reads of the encoder's buffer in formatting functions, none written through", n), fmt.Sprintf("only %d buf.Bytes() reads found in functions that call FormattedAs (>= 2 confirmed by hand)", n))
+	}
+}
+
+// ruleRegistryDeref (C04.selfsync <fn>:panic-site:registry-deref): an entry of Broker.nodes or
+// Broker.graphs is dereferenced only when the look-up said it exists. Registrations and removals change
+// the maps between any two sections of the lock, so "the node was there when the event started" is
+// not a fact at the time of a later look-up: a plain b.nodes[id].field on a removed id is a nil
+// dereference inside a Broker call.
+func (c *Ctx) ruleRegistryDeref(rule string) {
+	p, r := c.P, c.R
+	n := 0
+	for _, f := range p.FuncsIn(PkgRoot) {
+		eachInstr(f, func(in ssa.Instruction) {
+			lk, ok := in.(*ssa.Lookup)
+			if !ok {
+				return
+			}
+			t := p.NewTerms(nil).Of(lk.X)
+			if !(t.Op == "Field" && (t.Name == "nodes" || t.Name == "graphs")) {
+				return
+			}
+			if _, isPtr := lk.X.Type().Underlying().(*types.Map).Elem().Underlying().(*types.Pointer); !isPtr {
+				return
+			}
+			n++
+			if lk.CommaOk {
+				return // the ok flag is tested by the rules that read the entry (C05.commit, C06.*)
+			}
+			deref := false
+			for _, ref := range nonDebugRefs(lk) {
+				switch ref.(type) {
+				case *ssa.FieldAddr, *ssa.Field:
+					deref = true
+				}
+			}
+			r.Check(!deref, rule, p.ShortFn(f)+":panic-site:registry-deref", p.InstrPos(lk), "the plain look-up is not dereferenced", "an entry of Broker."+t.Name+" is looked up without the ok flag and dereferenced: an id that a concurrent (or earlier) removal took out of the map gives nil — a nil dereference inside a Broker call")
+		})
+	}
+	if n < 4 {
+		r.Und(rule, "registry-deref:instance-floor", "", fmt.Sprintf("only %d look-ups in Broker.nodes / Broker.graphs found (>= 4 confirmed by hand)", n))
+	}
+}
+
+// ruleMacPrivate (C16.mac hmacSha256:mac-private): the keyed hash made by hmac.New for a value is fed
+// that value and nothing else: its only uses are one Write of the data parameter and Sum. Handing it
+// to anything else first (a key-fingerprint helper that writes a label into it) makes the digest
+// HMAC(key, label || data): equal inputs under equal keys no longer give equal digests.
+func (c *Ctx) ruleMacPrivate(rule string) {
+	p, r := c.P, c.R
+	fn := c.Fn(rule, PkgEncrypt, "Filter", "hmacSha256")
+	if fn == nil {
+		return
+	}
+	n := 0
+	for _, ci := range callsTo(fn, func(nm string, cc *ssa.CallCommon) bool { return nm == "crypto/hmac.New" }) {
+		mac, ok := ci.(*ssa.Call)
+		if !ok {
+			continue
+		}
+		n++
+		writes := 0
+		var other ssa.Instruction
+		for _, ref := range nonDebugRefs(mac) {
+			call, isCall := ref.(ssa.CallInstruction)
+			if isCall && call.Common().IsInvoke() && call.Common().Value == ssa.Value(mac) {
+				switch call.Common().Method.Name() {
+				case "Write":
+					writes++
+					if !p.NewTerms(nil).Of(call.Common().Args[0]).IsParam("2:data") {
+						other = ref
+					}
+					continue
+				case "Sum":
+					continue
+				}
+			}
+			other = ref
+		}
+		pos := p.InstrPos(mac)
+		if other != nil {
+			pos = p.InstrPos(other)
+		}
+		r.Check(other == nil && writes == 1, rule, "hmacSha256:mac-private", pos, "the keyed hash is written once, with the data, and summed", "the keyed hash made for this value is used for something besides one Write(data) and Sum (handed to a helper, written twice, written with other bytes): the digest is no longer HMAC-SHA256 of the original value under the key")
+	}
+	if n != 1 {
+		r.Und(rule, "hmacSha256:mac-private", p.Pos(fn.Pos()), fmt.Sprintf("expected one hmac.New in hmacSha256, found %d", n))
+	}
+}
+
+// ruleGraphOfType (C01.scope <fn>:graph-of-type): a pipeline is stored in, and deleted from, the graph of
+// ITS event type: the receiver of every graphMap Store / Delete in package eventlogger (outside graphMap's
+// own methods) is the roots of a graph that was looked up in Broker.graphs (or made by the get-or-create
+// helper) in the same function. A graph remembered elsewhere (an index keyed by pipeline id alone) is
+// some event type's graph — the one that registered the id last.
+func (c *Ctx) ruleGraphOfType(rule string) {
+	p, r := c.P, c.R
+	n := 0
+	for _, f := range p.FuncsIn(PkgRoot) {
+		if rc := f.Signature.Recv(); rc != nil && typeShort(rc.Type()) == "eventlogger.graphMap" {
+			continue
+		}
+		for _, ci := range callsTo(f, func(nm string, cc *ssa.CallCommon) bool {
+			return nm == "(*eventlogger.graphMap).Store" || nm == "(*eventlogger.graphMap).Delete"
+		}) {
+			n++
+			recv := ci.Common().Args[0]
+			ok := false
+			if fa, isFA := recv.(*ssa.FieldAddr); isFA {
+				g := fa.X
+				seen := map[ssa.Value]bool{}
+				var fromGraphs func(v ssa.Value) bool
+				fromGraphs = func(v ssa.Value) bool {
+					if v == nil || seen[v] {
+						return true
+					}
+					seen[v] = true
+					switch x := v.(type) {
+					case *ssa.Phi:
+						for _, e := range x.Edges {
+							if !fromGraphs(e) {
+								return false
+							}
+						}
+						return len(x.Edges) > 0
+					case *ssa.Extract:
+						return fromGraphs(x.Tuple)
+					case *ssa.Lookup:
+						t := p.NewTerms(nil).Of(x.X)
+						return t.Op == "Field" && t.Name == "graphs"
+					case *ssa.Alloc:
+						// g = &graph{} stored into b.graphs right there (get-or-create)
+						return typeShort(x.Type()) == "eventlogger.graph"
+					case *ssa.Call:
+						if sc := x.Call.StaticCallee(); sc != nil {
+							return graphGetOrCreate(sc)
+						}
+					case *ssa.UnOp:
+						if x.Op == token.MUL {
+							if al, isAl := x.X.(*ssa.Alloc); isAl {
+								all := true
+								k := 0
+								for _, ref := range nonDebugRefs(al) {
+									if st, isSt := ref.(*ssa.Store); isSt && st.Addr == ssa.Value(al) {
+										k++
+										if !fromGraphs(st.Val) {
+											all = false
+										}
+									}
+								}
+								return all && k > 0
+							}
+						}
+					}
+					return false
+				}
+				ok = fromGraphs(g)
+			}
+			r.Check(ok, rule, p.ShortFn(f)+":graph-of-type", p.InstrPos(ci), "the pipeline is stored in / deleted from a graph looked up in Broker.graphs in this function", "the graph whose pipeline set is changed ("+shortStr(p.NewTerms(nil).Of(recv).String(), 90)+") was not looked up in Broker.graphs here: a graph remembered under another key (a pipeline id, which is unique only within its event type) is some other event type's graph — its pipeline is removed (and no longer traversed) while the one named stays")
+		}
+	}
+	if n < 2 {
+		r.Und(rule, "graph-of-type:instance-floor", "", fmt.Sprintf("only %d Store / Delete calls on a graph's pipeline set found (a Store and a Delete at least)", n))
+	}
 }
